@@ -26,5 +26,7 @@ Definition run_C15 (c : sexp) : sexp :=
            let a := ([97%N], as_bytes (nth_s 0 arg)) in
            let b := ([98%N], as_bytes (nth_s 1 arg)) in
            s_pmap (params_including_parents [[a; b]; [b]])
+  | 6%Z => (* flat route "/u/:id" matched against "/u/<raw>" *)
+           s_pmap (route_params [([105%N; 100%N], as_bytes arg)])
   | _ => Lst []
   end.
